@@ -148,6 +148,7 @@ type Chain struct {
 	Stakes   []StakeRef        // created by successful staking txs (plus genesis stakes)
 	Props    [][]byte          // tx hashes of successful proposal txs
 	Deployed [][]byte          // contract addresses of successful deployments
+	Watch    [][]byte          // further contract addresses to include in state dumps (created by contracts)
 	// Tendermint's validator pipeline: ValSets[h] signs block h.
 	ValSets    map[int64]*tmtypes.ValidatorSet
 	ValErr     string // first validator update list Tendermint would have rejected
